@@ -480,3 +480,29 @@ Lemma rearm_run af tags s sched : rearm_ok s -> rearm_ok (run af tags s sched).
 Proof.
   revert s. induction sched as [|l tl IH]; intros s H; [exact H|]. cbn. apply IH. apply rearm_step. exact H.
 Qed.
+
+(* ---------- many sources: the product run projects to single-source runs ---------- *)
+Lemma pstep_nth af : forall tagss ss i l j ds dt, length tagss = length ss ->
+  nth j (pstep af tagss ss i l) ds = if (j =? i) && (j <? length ss) then step af (nth j tagss dt) (nth j ss ds) l else nth j ss ds.
+Proof.
+  induction tagss as [|tg ttl IH]; intros ss i l j ds dt Hlen; destruct ss as [|s tl]; cbn in Hlen; try discriminate.
+  - cbn. rewrite andb_false_r. reflexivity.
+  - destruct i, j; cbn [pstep nth Nat.eqb]; try reflexivity.
+    cbn [length]. rewrite (IH tl i l j ds dt) by lia. reflexivity.
+Qed.
+
+Lemma pstep_length af : forall tagss ss i l, length (pstep af tagss ss i l) = length ss.
+Proof.
+  induction tagss as [|tg ttl IH]; intros ss i l; destruct ss as [|s tl]; cbn; try reflexivity.
+  destruct i; cbn; [reflexivity|]. rewrite IH. reflexivity.
+Qed.
+
+Lemma prun_nth af tagss : forall sched ss j ds dt, length tagss = length ss -> j < length ss ->
+  nth j (prun af tagss ss sched) ds = run af (nth j tagss dt) (nth j ss ds) (proj j sched).
+Proof.
+  induction sched as [|[i l] tl IH]; intros ss j ds dt Hlen Hj; [reflexivity|].
+  cbn [prun proj]. rewrite (IH (pstep af tagss ss i l) j ds dt) by (rewrite pstep_length; assumption).
+  rewrite (pstep_nth af tagss ss i l j ds dt Hlen).
+  assert (Hjl : (j <? length ss) = true) by (apply Nat.ltb_lt; exact Hj). rewrite Hjl, andb_true_r.
+  rewrite Nat.eqb_sym. destruct (i =? j); reflexivity.
+Qed.
